@@ -1,4 +1,4 @@
 From Coq Require Import Extraction ExtrOcamlBasic NArith.
-From DV Require Import Base.Outcome C05.Schema C05.Gen C05.Model C05.OptModel C05.SvcModel C05.SvcBuf C05.TxtModel.
+From DV Require Import Base.Outcome C05.Schema C05.Gen C05.Model C05.OptModel C05.SvcModel C05.SvcBuf C05.TxtModel C05.TxtLimit.
 Extraction Language OCaml.
-Extraction "../build/ml/C05/model.ml" c05_fields c05_compose c05_parse c05_eq_unknown c05_optframe c05_optparse c05_optdata c05_optfields c05_svcvalue c05_svcfields c05_svcbuild c05_svcbuild_inbuf c05_stdcookie c05_txtbuild.
+Extraction "../build/ml/C05/model.ml" c05_fields c05_compose c05_parse c05_eq_unknown c05_optframe c05_optparse c05_optdata c05_optfields c05_svcvalue c05_svcfields c05_svcbuild c05_svcbuild_inbuf c05_stdcookie c05_txtbuild c05_txtlim.
